@@ -179,7 +179,7 @@ def run(ctx):
                schedules=ctx.stats.get("schedules", 0), programs=ctx.stats.get("programs", 0), max_scheduling_points=ctx.stats.get("max_scheduling_points", 0),
                free_running_programs=ctx.stats.get("free_running_programs", 0),
                writable_static_storage=cens,
-               rule="programs = every unordered pair of a 46-operation alphabet (one operation per thread) with per-thread inputs to preemption bound 2 and with all inputs shared to bound 1 (2 in thorough), plus triples to bound 1; "
+               rule="programs = every unordered pair of a 47-operation alphabet (one operation per thread) with per-thread inputs to preemption bound 2 and with all inputs shared to bound 1 (2 in thorough), plus triples to bound 1; "
                     "every schedule within the bound is executed on the real library under the own runtime; states = programs, transitions = schedules; "
                     "cold-start pass: the same pairs to bound 1 with every schedule run in a freshly forked process that has executed no library code before (first-call behaviour); "
                     "writable static storage of every object file of the 5 back ends must be empty, and the library must import no libc function with process-wide state (denylist of ~100 names)",
